@@ -1447,7 +1447,16 @@ def c13_extra(ctx, cases):
             kinds.append("all_seg_flags")
         p2 = os.path.join(d, "twin_all_%04d.json" % ex["id"])
         json.dump(e2, open(p2, "w", encoding="utf-8"), ensure_ascii=False)
-        pairs.append((ex, e2, p2, tid, ic, ia, kinds))
+        # two thirds of these pairs are run with a room list and the room factor / offset fields of the generated exports ("rf", "ro"): rooms of a
+        # few places each, so that the sizes computed from the fields decide what fits (own generator: the draws above stay as they are)
+        r4 = random.Random(ctx.seed + 1315 + ex["id"])
+        room_args = []
+        if ex["id"] % 3 != 0:
+            nc = max(1, len(e["courses"]))
+            sizes = sorted([r4.choice([2, 3, 3, 4, 5, 6]) for _ in range(nc + r4.choice([-1, 0, 0, 1]))] or [3], reverse=True)
+            room_args = ["--rooms", ",".join(map(str, sizes)), "--room-factor-field", "rf", "--room-offset-field", "ro"]
+            kinds = kinds + ["run_with_rooms_and_room_fields"]
+        pairs.append((ex, e2, p2, tid, ic, ia, kinds, room_args))
     # directed: tie-heavy exports (several equally good solutions; which one is written depends on the order of the participants) whose twin has
     # the alphabetical order of the persona names REVERSED -- the order of the participants must be that of the registration ids only
     r2 = random.Random(ctx.seed + 1313)
@@ -1478,13 +1487,14 @@ def c13_extra(ctx, cases):
     from concurrent.futures import ThreadPoolExecutor
 
     def work(t):
-        ex, e2, p2, track, ic, ia, kinds = t
+        ex, e2, p2, track, ic, ia, kinds = t[:7]
+        room_args = t[7] if len(t) > 7 else []
         res = []
         for src, tag in ((ex["file"], "a"), (p2, "b")):
             outp = p2 + "." + tag + ".out"
             if os.path.exists(outp):
                 os.remove(outp)
-            args = ["--cde", "--num-threads", "1"] + (["--track", str(track)] if track is not None else []) + (["-i"] if ic else []) + (["-j"] if ia else []) + [src, outp]
+            args = ["--cde", "--num-threads", "1"] + (["--track", str(track)] if track is not None else []) + (["-i"] if ic else []) + (["-j"] if ia else []) + room_args + [src, outp]
             run = clirun.run_bin(binpath, args)
             out = None
             if os.path.exists(outp):
@@ -1503,6 +1513,7 @@ def c13_extra(ctx, cases):
     with ThreadPoolExecutor(max_workers=16) as exr:
         results = list(exr.map(work, pairs))
     # the model must classify the edit as irrelevant too: read_full equal on both documents
+    pairs = [t[:7] for t in pairs]
     texts = ["(%s, %s, %s)" % (cde.coq(ex["export"]), cde.coq(e2), cde.g_opts(track, ic, ia)) for (ex, e2, p2, track, ic, ia, kinds) in pairs]
     named = [i for i, pr in enumerate(pairs) if "persona_names" in pr[6]]
     plain = [i for i, pr in enumerate(pairs) if "persona_names" not in pr[6]]
